@@ -460,6 +460,36 @@ class Facts:
                         out.append(f)
         return out
 
+    def impl_fns(self, trait_suffix, self_contains, method):
+        """Functions implementing `method` of a trait (by trait def path suffix) for a self type
+        (substring of the printed type), found through impl facts rather than path spelling."""
+        out = []
+        for im in self.impls:
+            td = im.get("trait_def")
+            if not td or not (td == trait_suffix or td.endswith("::" + trait_suffix)):
+                continue
+            if self_contains not in im["self"]:
+                continue
+            for it in im["items"]:
+                if it["impl_item"].endswith("::" + method) and it["impl_id"] in self.fns:
+                    out.append(self.fns[it["impl_id"]])
+        return out
+
+    def impl_fn(self, trait_suffix, self_contains, method, exact_self=None):
+        r = self.impl_fns(trait_suffix, self_contains, method)
+        if exact_self is not None:
+            r = [f for f in r if self.impl_of(f)["self"] == exact_self or self.impl_of(f)["self"].endswith("::" + exact_self)]
+        if len(r) != 1:
+            raise AnalysisError("anchor lost: expected exactly one impl of %s::%s for %s, found %d"
+                                % (trait_suffix, method, self_contains, len(r)))
+        return r[0]
+
+    def impl_of(self, fn):
+        for im in self.impls:
+            if im["id"] == fn.impl:
+                return im
+        return None
+
     def closures_of(self, fn):
         pre = fn.id + "::{closure#"
         return [f for i, f in self.fns.items() if i.startswith(pre)]
